@@ -348,6 +348,28 @@ func (s *sim) step(op fx.Ev, v uint64) (fx.Ev, error) {
 		}
 		err := rules.CheckProposal(cbft.NewQC(idC, pview, id, pview-1), justify, vals)
 		ev["signs"], ev["res"], ev["why"], ev["route"] = as, verdict(err), why(err), route
+	case "receive":
+		// the certificate is the justify of a proposal received while the validator set changes: vc is in force for
+		// the certified view, vp for the view of the proposal (recv.go)
+		s.n = op.Int("n")
+		vc, vp := ints(op, "vc"), ints(op, "vp")
+		if len(vc) == 0 || len(vp) == 0 {
+			return nil, fmt.Errorf("receive with an empty validator set")
+		}
+		if (v>>44)%3 == 1 {
+			// the certificate arrives in a block: real xpoa CheckMinerMatch over a ledger that recorded both sets
+			res, as, w, err := s.receiveXpoa(entries(op), vc, vp, v)
+			if err != nil {
+				return nil, err
+			}
+			ev["signs"], ev["res"], ev["why"], ev["route"] = as, res, w, "xpoa"
+			break
+		}
+		res, as, err := s.receiveSmr(entries(op), vc, vp, v)
+		if err != nil {
+			return nil, err
+		}
+		ev["signs"], ev["res"], ev["route"] = as, res, "smr"
 	case "vote":
 		if s.rules == nil || s.n != op.Int("n") {
 			s.setup(op.Int("n"))
@@ -366,6 +388,10 @@ func (s *sim) step(op fx.Ev, v uint64) (fx.Ev, error) {
 	case "collect":
 		s.n = op.Int("n")
 		s.node = cbft.NewNode(cbft.Member(1), cbft.Addresses(s.n), idR, 0)
+		if (v>>48)%2 == 1 {
+			// members 1..n are the validators of the collected proposal's view (1) only: the set changes before and after it
+			s.node.Smr.Election = changingAround(1, cbft.Addresses(s.n))
+		}
 		jb, err := json.Marshal(&bft.QuorumCert{VoteInfo: &bft.VoteInfo{ProposalId: idR, ProposalView: 0}})
 		if err != nil {
 			return nil, err
@@ -433,6 +459,12 @@ func replay(args []string) error {
 	if err := selfCheck(); err != nil {
 		return err
 	}
+	if err := selfCheckReceive(); err != nil {
+		return err
+	}
+	if err := selfCheckReceiveXpoa(); err != nil {
+		return err
+	}
 	behs, err := fx.LoadBehaviours(*in)
 	if err != nil {
 		return err
@@ -481,6 +513,16 @@ func replay(args []string) error {
 			if ev["res"] == "accept" {
 				acc[ev.Str("op")]++
 			}
+			if ev.Str("op") == "receive" {
+				acc["receive_cases"]++
+				if ev.Str("route") == "xpoa" {
+					acc["receive_xpoa_cases"]++
+					if ev["res"] == "accept" {
+						acc["receive_xpoa_accept"]++
+					}
+				}
+				continue
+			}
 			if ev.Str("route") == "xpoa" {
 				acc["xpoa_cases"]++
 				if ev["res"] == "accept" {
@@ -495,8 +537,8 @@ func replay(args []string) error {
 		nv += verifs[k]
 	}
 	tw.Close()
-	fmt.Printf("{\"behaviours\":%d,\"ops\":%d,\"entries\":%d,\"accept_proposal\":%d,\"accept_vote\":%d,\"accept_thr\":%d,\"certified_events\":%d,\"xpoa_cases\":%d,\"accept_xpoa\":%d}\n",
-		len(behs), ops, nv, acc["proposal"], acc["vote"], acc["thr"], acc["certified"], acc["xpoa_cases"], acc["xpoa_accept"])
+	fmt.Printf("{\"behaviours\":%d,\"ops\":%d,\"entries\":%d,\"accept_proposal\":%d,\"accept_vote\":%d,\"accept_thr\":%d,\"certified_events\":%d,\"xpoa_cases\":%d,\"accept_xpoa\":%d,\"receive_cases\":%d,\"accept_receive\":%d,\"receive_xpoa_cases\":%d,\"accept_receive_xpoa\":%d}\n",
+		len(behs), ops, nv, acc["proposal"], acc["vote"], acc["thr"], acc["certified"], acc["xpoa_cases"], acc["xpoa_accept"], acc["receive_cases"], acc["receive"], acc["receive_xpoa_cases"], acc["receive_xpoa_accept"])
 	return nil
 }
 
